@@ -6,6 +6,7 @@
  "replace": [],
  "annotate": ["alg/sha256.c"],
  "defines": ["VERIF_HALLOC"],
+ "loop_contracts": false,
  "timeout": 300,
  "assumptions": ["ghost epilogue inserted at the end of SHA256_Transform (ghost state only) interprets the abstract chain g256_H by the computed state"]
 }
